@@ -468,6 +468,10 @@ def compare(op, a, b):
     if ka == 'bool' and op not in ('=', '<>'):
         raise OutOfDomain('ordering of booleans')
     if ka == 'num':
+        if a != b and (isinstance(a, float) or isinstance(b, float)) and abs(a - b) <= 1e-12 * max(abs(a), abs(b)):
+            # 0.05+0.01 against 0.06: the doubles differ in the last bit, Excel (and the library, which normalises to 15 digits
+            # around %) call them equal - which one holds is not fixed by the statements
+            raise OutOfDomain('comparison of two numbers that differ beyond the 12th significant digit only')
         a, b = Fraction(a), Fraction(b)
     if ka == 'text':
         for s in (a, b):
